@@ -89,6 +89,7 @@ iter_h!(c01_it_st_m1_g2_t3, 25, true, 1, 2, 3, 30);
 iter_h!(c01_it_st_m1_g3_t2, 25, true, 1, 3, 2, 30);
 // serial framing: from "nothing detected" (needs >= 20 bytes in the buffer before the fix) and from "serial detected"
 iter_h!(c01_it_se_m0_g0_t2, 10, false, 0, 0, 2, 30);
+iter_h!(c01_it_se_m0_g0_t0, 8, false, 0, 0, 0, 30);
 iter_h!(c01_it_se_m2_g0_t2, 10, false, 2, 0, 2, 30);
 iter_h!(c01_it_se_m2_g1_t2, 11, false, 2, 1, 2, 30);
 iter_h!(c01_it_se_m2_g3_t3, 14, false, 2, 3, 3, 30);
